@@ -43,7 +43,7 @@ CHECKS = {
     "C11": _c("For opsets 21..27 (13..20 explored, unclaimed): every node (recursively, functions with their own imports) must exist in onnx.defs at the declared version with fitting arity and attribute names; declared version == requested; checker passes; ORT loads and equals the default-opset export (<= 26). Programs: registered testcases and generated control-flow / function / composition programs.",
               "onnx.defs of onnx 1.22 is the reference for operator signatures; ORT 1.30 cannot load opset 27.",
               "catalog x opset enumeration + Hypothesis programs, schema-conformance oracle and cross-opset differential"),
-    "C12": _c("Metamorphic relation on generated image programs (conv, pooling, residual adds, internal transposes, shape-reading steps, symbolic batch and H/W; outputs incl. passthrough and duplicates) x every subset of eligible input/output indices: ORT(flagged)(P.x) == P.ORT(plain)(x) on selected outputs, identical on others, both equal eager JAX; declared shapes permuted; invalid requests raise.",
+    "C12": _c("Metamorphic relation on generated image programs (conv, pooling, residual adds, internal transposes, shape-reading steps, symbolic batch and H/W; outputs incl. passthrough, 4-D keepdims reductions and one value observed twice) x every subset of eligible input/output indices: ORT(flagged)(P.x) == P.ORT(plain)(x) on selected outputs, identical on others, both equal eager JAX; declared shapes permuted; invalid requests raise.",
               "The plain export and eager JAX are the references; float tolerance 2e-4 relative.",
               "Hypothesis program generation + subset enumeration, metamorphic relation (layout permutation) with reference oracle"),
     "C13": _c("Hypothesis rule-based state machine in one process: successful conversions (programs, functions, jitted callables, both precisions, all return modes), failing conversions at each stage (tracing, unknown primitive at top/scan/function body, unwritable path) and fault injection into the plugin patch stack; invariant after every rule: identity snapshot of all jax/flax/equinox/dm_pix/einops module and class attributes, empty patch state, x64 flag, user-module pytree bytes, and bit-identical behavioural probes incl. every callable converted so far.",
@@ -52,7 +52,7 @@ CHECKS = {
     "C14": _c("One generated request list (registered testcases, compositions, function histories, control flow, NCHW programs) executed in fresh subprocesses with different PYTHONHASHSEED, plugin import permutations, request orders, interleaved failing conversions and eager jit calls, every request at two history positions; deterministic-serialization digests must be equal everywhere.",
               "Program generation happens once in the parent and is shipped as JSON; byte equality under SerializeToString(deterministic=True).",
               "generated schedules/histories across subprocesses, digest-equality invariant"),
-    "C15": _c("Hypothesis rule-based state machine over a temp directory: exports in proto / ir / file mode (standard and web) for parameter size classes around the 1 MiB spill threshold (incl. exactly at it, several large, int8) to paths reused across steps; invariant per step: proto == ir bytewise, reloaded file equal in graph and in SHA-256 of every decoded initializer, ORT outputs identical, web mode single file, sidecar present iff referenced.",
+    "C15": _c("Hypothesis rule-based state machine over a temp directory: exports in proto / ir / file mode (standard and web, canonical and accepted case/blank spellings) for parameter size classes around the 1 MiB spill threshold (incl. exactly at it, several large, int8) to paths reused across steps; invariant per step: proto == ir bytewise, reloaded file equal in graph and in SHA-256 of every decoded initializer, ORT outputs identical, web mode single file, sidecar present iff referenced.",
               "onnx.load + numpy_helper.to_array(base_dir) define 'reloaded from disk with sidecar'.",
               "Hypothesis stateful (rule-based) testing with a round-trip invariant"),
     "C16": _c("Fault enumeration over every optimizer pass index (0..17) x {raise before, raise after} x {top graph, function bodies} on six programs (thorough: also generated programs): the default policy must return a valid model equal to eager JAX and the strict setting must re-raise; plus every unsupported construct (unknown primitive, plugin removed from the registry, 3-way switch, reverse scan, traced fori bounds) at 7 placements (top, cond/while/scan/fori bodies, nested, @onnx_function body): raise or be correct.",
